@@ -27,6 +27,8 @@ int main(int argc, char** argv) {
       if (sp == 1) b.mH = b.mh;                                 // degenerate CP-even states: angle undefined
       if (sp == 2) b.mH = b.mh * (1 + r.LU(1e-12, 1e-2));      // nearly degenerate
       if (sp == 3) { b.mA = b.mH; b.mHp = b.mH; }
+      // exact zeros of the Z2-breaking couplings, one at a time and both (input shapes of Z2-symmetric and softly broken models)
+      { const int zp = r.range(10); if (zp == 0 || zp == 2) b.lambda_6 = 0; if (zp == 1 || zp == 2) b.lambda_7 = 0; if (zp == 3) b.lambda_6 = -0.0; }
       SM sm;
       const int ck = r.range(4);
       if (ck == 1) sm.set_ckm_from_wolfenstein(0.2257, 0.814, 0.135, 0.349);
